@@ -172,6 +172,21 @@ def _is_space_item(item):
     return False
 
 
+def flatten_groups(items):
+    """The items of a pattern with plain groups (capturing or not, no inline flags, no alternation of their own) dissolved: for
+    what a substitution removes, `#(.*)$` is `#.*$`."""
+    out = []
+    for op, av in items:
+        if op == sre.SUBPATTERN and not av[1] and not av[2]:
+            out.extend(flatten_groups(list(av[3])))
+        else:
+            out.append((op, av))
+    return out
+
+
+_COMPLEMENTS = [{'CATEGORY_SPACE', 'CATEGORY_NOT_SPACE'}, {'CATEGORY_DIGIT', 'CATEGORY_NOT_DIGIT'}, {'CATEGORY_WORD', 'CATEGORY_NOT_WORD'}]
+
+
 def _is_any_to_eol(item):
     """One character of `anything up to the end of the line`."""
     op, av = item
@@ -181,8 +196,25 @@ def _is_any_to_eol(item):
         return av in (10, 13)
     if op == sre.IN:
         av = list(av)
-        return (len(av) >= 2 and av[0][0] == sre.NEGATE
-                and all(i[0] == sre.LITERAL and i[1] in (10, 13) for i in av[1:]))
+        if (len(av) >= 2 and av[0][0] == sre.NEGATE
+                and all(i[0] == sre.LITERAL and i[1] in (10, 13) for i in av[1:])):
+            return True
+        cats = {str(i[1]).replace('UNI_', '') for i in av if i[0] == sre.CATEGORY}
+        return any(c <= cats for c in _COMPLEMENTS)          # [\s\S]: every character
+    return False
+
+
+def _is_optional_newline(item):
+    op, av = item
+    if op not in (sre.MAX_REPEAT, sre.MIN_REPEAT) or av[0] != 0:
+        return False
+    sub = list(av[2])
+    if len(sub) != 1:
+        return False
+    if sub[0][0] == sre.LITERAL:
+        return sub[0][1] in (10, 13)
+    if sub[0][0] == sre.IN:
+        return all(i[0] == sre.LITERAL and i[1] in (10, 13) for i in sub[0][1])
     return False
 
 
@@ -196,26 +228,84 @@ def _skip_optional_space(items):
 
 
 def is_comment_pattern(tree):
-    """[optional whitespace] '#' followed by anything to the end of the line."""
-    items = _skip_optional_space(list(tree))
+    """[optional whitespace] '#' followed by anything to the end of the line (a line never holds a line break)."""
+    items = _skip_optional_space(flatten_groups(list(tree)))
     if len(items) < 2 or items[0] != (sre.LITERAL, ord('#')):
         return False
     op, av = items[1]
     if op not in (sre.MAX_REPEAT, sre.MIN_REPEAT) or av[0] != 0 or av[1] != sre.MAXREPEAT:
         return False
-    sub = list(av[2])
+    sub = flatten_groups(list(av[2]))
     if len(sub) != 1 or not _is_any_to_eol(sub[0]):
         return False
     rest = items[2:]
-    if not all(r[0] == sre.AT and r[1] in (sre.AT_END, sre.AT_END_STRING) for r in rest):
+    anchors = [r for r in rest if r[0] == sre.AT and r[1] in (sre.AT_END, sre.AT_END_STRING)]
+    if not all(r in anchors or _is_optional_newline(r) for r in rest):
         return False
-    if op == sre.MIN_REPEAT and not rest:
+    if op == sre.MIN_REPEAT and not anchors:
         return False       # lazy and unanchored: removes the '#' only
     return True
 
 
+COMMENT_WITNESS_LINES = ['addi x1, x0, 1 # set x1', 'x # a b', '# only a comment', 'lw a0, 4(sp) #c#d', 'nop #', 'li t0, 5\t# tab before']
+
+
+def comment_witness(pattern, repl):
+    """A source line on which re.sub(pattern, repl, line) leaves comment text behind (the pattern and the replacement are
+    constants of the analysed module; only the library engine runs).  None when the samples show no difference."""
+    try:
+        rx = re.compile(pattern)
+    except re.error:
+        return None
+    for line in COMMENT_WITNESS_LINES:
+        try:
+            got = rx.sub(repl, line)
+        except (re.error, IndexError):
+            return None
+        if got.strip() != line.split('#')[0].strip():
+            return line, got
+    return None
+
+
+PROGRAM_LINES_WITHOUT_HASH = ['VALUE = 100 // 7', 'addi t0, t0, 1 ; note', 'lw a0, 4(sp) ! note', "li a0, '/' @ note", 'li a0, 1 -- note', 'a = 6 /* c */ + 1',
+                              'b = 7 % 3', 'c = d * 2', 'jal zero, loop', 'string a // b', 'bytes 1 2 3', 'x = (1 << 4) | 3', 'y = ~x & 0xff']
+
+
+def ends_with_rest_of_line(tree):
+    """The pattern ends in `anything up to the end of the line` (greedy, or anchored): whatever it starts at, it removes the
+    rest of the line."""
+    items = flatten_groups(list(tree))
+    while items and (items[-1][0] == sre.AT and items[-1][1] in (sre.AT_END, sre.AT_END_STRING) or _is_optional_newline(items[-1])):
+        items = items[:-1]
+    if not items:
+        return False
+    op, av = items[-1]
+    if op not in (sre.MAX_REPEAT, sre.MIN_REPEAT) or av[1] != sre.MAXREPEAT:
+        return False
+    sub = flatten_groups(list(av[2]))
+    return len(sub) == 1 and _is_any_to_eol(sub[0])
+
+
+def comment_start_witness(pattern, repl):
+    """A program line without any `#` that re.sub(pattern, repl, line) cuts short (pattern and replacement are constants of the
+    analysed module; only the library engine runs): the pattern starts comments at something that is program text.  -> (line,
+    result) or None."""
+    try:
+        rx = re.compile(pattern)
+    except re.error:
+        return None
+    for line in PROGRAM_LINES_WITHOUT_HASH:
+        try:
+            got = rx.sub(repl, line)
+        except (re.error, IndexError):
+            return None
+        if got.split() != line.split():
+            return line, got
+    return None
+
+
 def starts_with_hash(tree):
-    items = _skip_optional_space(list(tree))
+    items = _skip_optional_space(flatten_groups(list(tree)))
     return bool(items) and items[0] == (sre.LITERAL, ord('#'))
 
 
@@ -337,8 +427,8 @@ def padding_substitution(tree, repl):
         if it[0] == sre.AT:
             return None
         cs, _cap = regex_chars([it])
-        if cs is None or not all(x == SPACE or (x[0] == 'LITERAL' and chr(x[1]).isspace()) for x in cs):
-            dropped_text = True
+        if cs is None or not all(x == SPACE or x == COMMA or (x[0] == 'LITERAL' and chr(x[1]).isspace()) for x in cs):
+            dropped_text = True          # (blanks and commas are separators either way - R13.3 - and the template writes blanks back)
     if dropped_text:
         return 'deletes', 'the match extends over text next to {} that the replacement {!r} does not put back'.format(sorted(chars), repl)
     if pre and post:
@@ -483,13 +573,14 @@ class Len(Val):
 
 
 class LineV(Val):
-    """A Line object."""
+    """A Line object.  screened = it passed a condition on its text that the rules do not classify (so what lexing it yields is
+    no longer `any line of the source`)."""
 
-    def __init__(self, contents, number):
-        self.contents, self.number = contents, number
+    def __init__(self, contents, number, screened=False):
+        self.contents, self.number, self.screened = contents, number, screened
 
     def _key(self):
-        return (self.contents, self.number)
+        return (self.contents, self.number, self.screened)
 
 
 class LT(Val):
@@ -582,7 +673,7 @@ def merge(a, b):
     if a == b:
         return a
     if isinstance(a, LineV) and isinstance(b, LineV) and a.contents == b.contents:
-        return LineV(a.contents, Unk('number'))
+        return LineV(a.contents, Unk('number'), a.screened or b.screened)
     for x, y in ((a, b), (b, a)):
         if isinstance(x, Reg) and isinstance(y, Reg) and x.state == 'raw' and y.state == 'int':
             return Reg('norm', y.base)
@@ -1055,7 +1146,17 @@ class Flow:
         if is_comment_pattern(tree) and all(c.isspace() for c in repl):
             return [Op('comment', node=node)]
         if starts_with_hash(tree):
-            return [Op('hash-other', pattern, node=node)]
+            # not recognised as `# to the end of the line`: wrong only with a witness line; agreement on the samples proves nothing
+            w = comment_witness(pattern, repl)
+            if w is not None:
+                return [Op('hash-other', pattern, w, node=node)]
+            return [Op('unknown', 're.sub({!r}, {!r}): removes comments on the sample lines, not recognised in general'.format(pattern, repl), node=node)]
+        if ends_with_rest_of_line(tree) and all(c.isspace() for c in repl):
+            # comment-shaped, but not `# to the end of the line`: does it start at program text?
+            w = comment_start_witness(pattern, repl)
+            if w is not None:
+                also_hash = comment_witness(pattern, repl) is None
+                return [Op('comment-extra', pattern, w, also_hash, node=node)]
         chars, _cap = regex_chars(tree)
         lo, _hi = tree.getwidth()
         if (chars is not None and lo >= 1 and repl and all(_sepish(c) for c in repl)
@@ -1076,6 +1177,15 @@ class Flow:
             self.event('reg-lookup', args[0], node, env)
             return Unk('register number')
         if isinstance(recv, (Text, TokEl)) and attr in ('startswith', 'endswith', 'isspace', 'isdigit', 'isalpha', 'isidentifier'):
+            if attr == 'startswith' and isinstance(recv, Text) and len(args) == 1:
+                prefixes = None
+                if isinstance(args[0], K) and isinstance(args[0].value, str):
+                    prefixes = (args[0].value,)
+                elif isinstance(args[0], K) and isinstance(args[0].value, tuple) and all(isinstance(x, str) for x in args[0].value):
+                    prefixes = args[0].value
+                elif isinstance(args[0], Tup) and all(isinstance(x, K) and isinstance(x.value, str) for x in args[0].items):
+                    prefixes = tuple(x.value for x in args[0].items)
+                self.event('startswith', (recv, prefixes), node, env)
             return Truth(attr, recv)
         if isinstance(recv, Text):
             return self.text_method(recv, attr, args, kw, node)
@@ -1137,7 +1247,10 @@ class Flow:
             sep = args[0] if args else kw.get('sep', K(None))
             limited = len(args) > 1 or 'maxsplit' in kw
             if recv.root == 'source':
-                return Unk('split of the source text (only splitlines() is followed)')
+                if sep == K('\n') and not limited and not recv.ops:
+                    # the same positions as splitlines() for \n / \r\n files; each line may still end in its carriage return
+                    return Seq('physical', Text('raw', (Op('cr-tail', node=node),)), False, "split('\\n')")
+                return Unk('split of the source text (only splitlines() and split(newline) are followed)')
             if sep == K(None):
                 if limited:
                     return Unk('split with maxsplit')
@@ -1196,6 +1309,9 @@ class Flow:
         f, it = args
         fnode = node.args[0]
         truthy = f == K(None) or (isinstance(fnode, ast.Name) and fnode.id in ('bool', 'len') and fnode.id not in env and fnode.id not in self.facts.funcs)
+        if (isinstance(fnode, ast.Attribute) and fnode.attr in ('__len__', '__bool__') and isinstance(fnode.value, ast.Name) and fnode.value.id == 'LineTokens'
+                and isinstance(it, Seq) and isinstance(it.elem, LT)):
+            truthy = True            # filter(LineTokens.__len__, xs): judged by require_lt_len below
         if isinstance(it, Toks):
             if truthy:
                 return it.with_nonempty()
@@ -1217,6 +1333,17 @@ class Flow:
                 sub[f.node.args.args[0].arg] = elem
                 self.refine(sub, f.node.body, True)
                 elem = sub[f.node.args.args[0].arg]
+            elif isinstance(f, Func) and isinstance(f.node, ast.FunctionDef) and len(f.node.args.args) == 1:
+                call = ast.Call(func=ast.Name(id=f.node.name, ctx=ast.Load()), args=[ast.Name(id='__el', ctx=ast.Load())], keywords=[])
+                sub = dict(f.closure or {})
+                sub['__el'] = elem
+                sub.setdefault(f.node.name, f)
+                self.refine(sub, call, True)
+                elem = sub['__el']
+            elif isinstance(elem, LT) and elem.nonempty is False:
+                elem = LT(elem.line, elem.toks, None)        # kept by a test the rules do not classify
+            elif isinstance(elem, LineV):
+                elem = LineV(elem.contents, elem.number, True)
             return Seq(it.kind, elem, True, it.origin)
         return Unk('filter')
 
@@ -1340,6 +1467,22 @@ class Flow:
             return self.emptiness(test.target, env)
         if isinstance(test, ast.Call) and isinstance(test.func, ast.Name) and test.func.id == 'bool' and len(test.args) == 1 and 'bool' not in env:
             return self.emptiness(test.args[0], env)
+        if (isinstance(test, ast.Call) and isinstance(test.func, ast.Name) and len(test.args) == 1 and not test.keywords
+                and not isinstance(test.args[0], ast.Starred) and self.depth < MAX_INLINE_DEPTH):
+            # a helper predicate `def has_tokens(x): return len(x) > 0`
+            f = env.get(test.func.id)
+            if f is None and test.func.id in self.facts.funcs and test.func.id not in self.special:
+                f = Func(self.facts.funcs[test.func.id])
+            if isinstance(f, Func) and isinstance(f.node, ast.FunctionDef) and len(f.node.args.args) == 1 and not f.node.args.kwonlyargs:
+                body = [st for st in f.node.body if not (isinstance(st, ast.Expr) and isinstance(st.value, ast.Constant))]
+                if len(body) == 1 and isinstance(body[0], ast.Return) and body[0].value is not None:
+                    sub = dict(f.closure or {})
+                    sub[f.node.args.args[0].arg] = self.eval(test.args[0], env)
+                    self.depth += 1
+                    try:
+                        return self.emptiness(body[0].value, sub)
+                    finally:
+                        self.depth -= 1
         if isinstance(test, ast.Compare) and len(test.ops) == 1:
             left, op, right = test.left, test.ops[0], test.comparators[0]
             lv, rv = self.eval(left, env), self.eval(right, env)
@@ -1418,9 +1561,18 @@ class Flow:
                     for k, w in list(env.items()):
                         if w == v:
                             env[k] = LT(v.line, v.toks, None)
+                v = env.get(n.id)
+                if isinstance(v, LineV) and not v.screened:
+                    env[n.id] = LineV(v.contents, v.number, True)
             return
         subj, empty_when, _snode = cls
         nonempty = (empty_when != truth)
+        if isinstance(subj, Text) and subj.root == 'contents' and subj.ops:
+            # a condition on a rewritten line text (comment cut off, stripped ...): the lines that pass are a selection
+            for k, w in list(env.items()):
+                if isinstance(w, LineV) and not w.screened and w.contents.root == 'contents':
+                    env[k] = LineV(w.contents, w.number, True)
+            return
         if isinstance(subj, LT):
             self.require_lt_len()
             hit = [k for k, w in env.items() if w == subj]
@@ -1437,6 +1589,14 @@ class Flow:
         """Join of the values of the two arms of `test` (a: test true)."""
         if a == b:
             return a
+        # if '#' in text: text = <text up to the '#'>   (cutting at a '#' that is not there changes nothing)
+        if (isinstance(test, ast.Compare) and len(test.ops) == 1 and isinstance(test.ops[0], (ast.In, ast.NotIn))
+                and isinstance(a, Text) and isinstance(b, Text) and self.eval(test.left, dict(env)) == K('#')):
+            cut, kept = (a, b) if isinstance(test.ops[0], ast.In) else (b, a)
+            subject = self.eval(test.comparators[0], dict(env))
+            if (subject == kept and cut.root == kept.root and len(cut.ops) == len(kept.ops) + 1 and cut.ops[:-1] == kept.ops
+                    and cut.ops[-1].kind == 'comment'):
+                return cut
         cls = self.emptiness(test, env)
         if cls is not None and isinstance(cls[0], Text):
             empty_when = cls[1]
@@ -1538,7 +1698,9 @@ class Flow:
                 ctx = self.loops[-1]
                 pre = ctx.pre_env.get(name)
                 top_level = getattr(st, '_parent', None) is ctx.node
-                if isinstance(pre, K) and isinstance(pre.value, int) and isinstance(ctx.it, Seq) and top_level and name not in ctx.counters:
+                several = sum(1 for n in ast.walk(ctx.node) if isinstance(n, (ast.AugAssign, ast.Assign, ast.NamedExpr))
+                              and any(isinstance(t, ast.Name) and t.id == name for t in ([n.target] if not isinstance(n, ast.Assign) else n.targets))) > 1
+                if isinstance(pre, K) and isinstance(pre.value, int) and isinstance(ctx.it, Seq) and top_level and name not in ctx.counters and not several:
                     ctx.counters.add(name)
                     env[name] = Idx(ctx.it, pre.value + 1, late=ctx.may_skip)
                     return False
@@ -1838,6 +2000,7 @@ def check_lexer(rep, facts):
     flow = run_function(facts, fn, {p: LineV(Text('contents'), Unk('number'))})
     if not flow.returns:
         raise AnalysisError('lex_tokens: no return statement found')
+    info = LexerFacts()
     mains = []
     for value, guards, node in flow.returns:
         if not isinstance(value, LT):
@@ -1855,6 +2018,7 @@ def check_lexer(rep, facts):
             if m is None:
                 raise AnalysisError('lex_tokens: a literal token list is returned without a pattern match on the line text: ' + unparse(node)[:80])
             decide_literal_line(rep, toks.items[0].value, m, node)
+            info.literal_lines.append((toks.items[0].value, node, tail_is_verbatim(m)))
             rep.count('lexer paths analysed')
         else:
             raise AnalysisError('lex_tokens: cannot follow the line text to the returned token list in `{}` ({!r})'.format(unparse(node)[:80], toks))
@@ -1864,7 +2028,63 @@ def check_lexer(rep, facts):
     for toks, guards, node in mains:
         rep.count('lexer paths analysed')
         pats.append(decide_token_path(rep, toks, node))
-    return pats[0]
+    info.separator = pats[0]
+    return info
+
+
+def tail_is_verbatim(m):
+    """Does the text captured from a custom-lexed line run to the very end of the line text, carriage return included?
+    True / False / None (not decided)."""
+    if any(o.kind == 'strip' and o.args[0] in ('right', 'both') and (o.args[1] is None or '\r' in o.args[1]) for o in m.text.ops):
+        return False
+    items = flatten_groups(list(regex_ast(m.rx.pattern)))
+    while items and items[-1][0] == sre.AT:
+        items = items[:-1]
+    if not items:
+        return None
+    op, av = items[-1]
+    if op in (sre.MAX_REPEAT, sre.MIN_REPEAT):
+        sub = flatten_groups(list(av[2]))
+        if len(sub) == 1:
+            it = sub[0]
+            if it[0] == sre.ANY:
+                return True                       # `.` matches a carriage return
+            if it[0] == sre.IN:
+                av2 = list(it[1])
+                if av2 and av2[0][0] == sre.NEGATE:
+                    return not any(i[0] == sre.LITERAL and i[1] == 13 for i in av2[1:])
+                cats = {str(i[1]).replace('UNI_', '') for i in av2 if i[0] == sre.CATEGORY}
+                if 'CATEGORY_SPACE' in cats or any(c <= cats for c in _COMPLEMENTS):
+                    return True
+                return None
+            if it[0] == sre.NOT_LITERAL:
+                return it[1] != 13
+    return None
+
+
+def check_line_ends(rep, reader, lexer):
+    """R13.5: the same file with \\r\\n line ends assembles like the one with \\n line ends.  When the reader cuts the source at
+    newlines only, each line keeps its carriage return; that is harmless where the line is split at whitespace, and wrong where a
+    custom-lexed line kind takes the rest of the line verbatim."""
+    if reader.keeps_cr is None:
+        rep.ok('R13.5.line-ends', 'no line keeps a carriage return (splitlines(), or the line is stripped of it)', nontrivial=False)
+        return
+    verbatim = sorted([(k, n) for k, n, v in lexer.literal_lines if v is True], key=lambda kn: (kn[0] != 'string', kn[0]))
+    undecided = [(k, n) for k, n, v in lexer.literal_lines if v is None]
+    if not verbatim and undecided:
+        raise AnalysisError('lines may keep a carriage return (the source is cut at newlines only) and whether the `{}` line kind captures it is not decided'.format(undecided[0][0]))
+    node = reader.keeps_cr
+    rep.check(not verbatim, 'R13.5.line-ends', 'a carriage return left on a line never reaches a token',
+              lambda: Finding('R13.5.line-ends', 'read_lines', node,
+                              'the source is cut at newlines only, so with \\r\\n line ends every line keeps its carriage return; the `{}` line kind takes the rest '
+                              'of the line verbatim, so the same file saved with \\r\\n and with \\n line ends assembles differently (a \\r inside the literal)'.format(verbatim[0][0]),
+                              line=node.lineno))
+
+
+class LexerFacts:
+    def __init__(self):
+        self.literal_lines = []        # (keyword, node, tail verbatim: True / False / None)
+        self.separator = None
 
 
 def decide_literal_line(rep, keyword, m, ret):
@@ -1873,7 +2093,7 @@ def decide_literal_line(rep, keyword, m, ret):
     text = m.text
     if any(o.kind != 'strip' or o.args[1] is not None for o in text.ops):
         raise AnalysisError('lex_tokens: the `{}` line kind is recognised on a rewritten line text ({}): outside the rules'.format(keyword, describe_ops(text.ops)))
-    items = list(regex_ast(m.rx.pattern))
+    items = flatten_groups(list(regex_ast(m.rx.pattern)))
     if m.rx.flags:
         raise AnalysisError('lex_tokens: the pattern of the `{}` line kind is compiled with flags'.format(keyword))
     if m.how not in ('match', 'fullmatch', 'search'):
@@ -1921,6 +2141,13 @@ def decide_token_path(rep, toks, ret):
         raise AnalysisError('lex_tokens: the separator {} can consume characters the rules cannot enumerate'.format(sep.text))
     kinds = describe_ops(text.ops)
     rep.sample({'lexer_chain': kinds, 'separator': sep.text, 'empty_tokens_dropped': toks.nonempty})
+    for o in text.ops:
+        if o.kind == 'comment-extra':
+            line, got = o.args[1]
+            rep.fail(Finding('R13.4.comment-start', 'lex_tokens', o.node or sp,
+                             'the pattern {!r} removes text to the end of the line starting at something that is not `#`: the program line {!r} is cut to {!r}; '
+                             'only `#` starts a comment'.format(o.args[0], line, got), line=getattr(o.node or sp, 'lineno', None)),
+                     instance='only `#` starts a comment')
     unknown = [o for o in text.ops if o.kind == 'unknown' or o.kind == 'case']
     if unknown:
         raise AnalysisError('lex_tokens: the line text is rewritten by an operation outside the rules before it is split: {}'.format(
@@ -1933,7 +2160,7 @@ def decide_token_path(rep, toks, ret):
     extra_seps = set()
     deleted = []
     for i, o in enumerate(text.ops):
-        if o.kind == 'comment':
+        if o.kind == 'comment' or (o.kind == 'comment-extra' and o.args[2]):
             if comment_at is None:
                 comment_at = i
                 for b in text.ops[:i]:
@@ -2015,7 +2242,8 @@ def decide_token_path(rep, toks, ret):
     first = text.ops[0].node if text.ops and text.ops[0].node is not None else sp
     msg = 'comments are not stripped on the way from the line text to the token split (chain: {}): a trailing `# comment` would contribute tokens'.format(kinds)
     if hash_other is not None and comment_at is None:
-        msg = 'the pattern {!r} does not remove a comment (`#` to the end of the line) from the line text (chain: {}): a trailing `# comment` would contribute tokens'.format(hash_other.args[0], kinds)
+        msg = ('the pattern {!r} does not remove a comment (`#` to the end of the line) from the line text: the line {!r} becomes {!r} (chain: {}): a trailing '
+               '`# comment` would contribute tokens'.format(hash_other.args[0], hash_other.args[1][0], hash_other.args[1][1], kinds))
     elif comment_late:
         msg = 'the comment is removed only after the line text was rewritten by operations that involve `#` (chain: {})'.format(kinds)
     rep.check(comment_at is not None and not comment_late, 'R13.4.comments',
@@ -2080,6 +2308,7 @@ def check_reader(rep, facts):
     lines = [e for e in flow.events if e[0] == 'Line']
     if not lines:
         raise AnalysisError('anchor vanished: no Line(file, number, contents) is built by read_lines (or a helper it calls)')
+    keeps_cr = None
     for _kind, v, node, guards, _stack in lines:
         rep.count('Line constructions analysed')
         num, contents = v.number, v.contents
@@ -2087,10 +2316,12 @@ def check_reader(rep, facts):
             raise AnalysisError('read_lines: cannot follow the line number of `{}` to a position in the list of physical lines ({!r})'.format(unparse(node)[:80], num))
         if num.seq.kind != 'physical':
             raise AnalysisError('read_lines: line numbers count the elements of {!r}, not of the physical lines of the source'.format(num.seq.origin))
-        if not (isinstance(contents, Text) and contents.root == 'raw' and all(o.kind == 'strip' for o in contents.ops)):
+        if not (isinstance(contents, Text) and contents.root == 'raw' and all(o.kind in ('strip', 'cr-tail') for o in contents.ops)):
             raise AnalysisError('read_lines: the contents of `{}` are not the text of the numbered physical line ({!r})'.format(unparse(node)[:80], contents))
         if contents != num.seq.elem and contents.root != num.seq.elem.root:
             raise AnalysisError('read_lines: number and contents of a Line come from different lists')
+        if keeps_carriage_return(contents):
+            keeps_cr = node
         ok = not num.seq.filtered and not num.late
         rep.check(ok, 'R13.5.blank-lines', 'line numbers are taken from the unfiltered list of physical lines',
                   lambda: Finding('R13.5.blank-lines', 'read_lines', node,
@@ -2106,7 +2337,64 @@ def check_reader(rep, facts):
         test, truth, genv = guards[-1]
         if isinstance(test, ast.expr) and is_blank_test(flow, test, truth, genv):
             skipped = True
-    return skipped
+    check_reader_directives(rep, flow)
+    return ReaderFacts(skipped, keeps_cr)
+
+
+class ReaderFacts:
+    """What check_reader established: truthy when the reader skips blank lines itself; keeps_cr = the Line construction whose
+    contents may still end in a carriage return (the source was cut at newlines only and nothing stripped the line), or None."""
+
+    def __init__(self, skips_blank, keeps_cr):
+        self.skips_blank, self.keeps_cr = skips_blank, keeps_cr
+
+    def __bool__(self):
+        return bool(self.skips_blank)
+
+
+def keeps_carriage_return(text):
+    keeps = False
+    for o in text.ops:
+        if o.kind == 'cr-tail':
+            keeps = True
+        elif o.kind == 'strip' and o.args[0] in ('right', 'both') and (o.args[1] is None or '\r' in o.args[1]):
+            keeps = False
+    return keeps
+
+
+def check_reader_directives(rep, flow):
+    """R13.4: a line whose first non-blank character is `#` is a comment, whatever follows.  The reader recognises its directives
+    (include ...) by a prefix test on the raw line: no prefix may begin with `#`, and no leading `#` may be stripped before the
+    test - unless all the test does is skip the line."""
+    for kind, v, node, guards, _stack in flow.events:
+        if kind != 'startswith':
+            continue
+        recv, prefixes = v
+        if not (isinstance(recv, Text) and recv.root == 'raw') or prefixes is None:
+            continue
+        if any(o.kind not in ('case', 'strip', 'cr-tail') for o in recv.ops):
+            continue
+        hash_stripped = any(o.kind == 'strip' and o.args[0] in ('left', 'both') and o.args[1] is not None and '#' in o.args[1] for o in recv.ops)
+        commentish = [p for p in prefixes if p.lstrip().startswith('#')]
+        keywords = [p for p in prefixes if p.strip() and p.lstrip()[0].isalpha()]
+        if not commentish and not (hash_stripped and keywords):
+            rep.ok('R13.4.comment-lines', 'read_lines: the line prefixes {} do not reach into comment lines'.format(list(prefixes)), nontrivial=False)
+            continue
+        # which statement does the test guard?
+        cur, par = node, getattr(node, '_parent', None)
+        while par is not None and not isinstance(par, ast.stmt):
+            cur, par = par, getattr(par, '_parent', None)
+        if not (isinstance(par, ast.If) and any(n is node for n in ast.walk(par.test))):
+            raise AnalysisError('read_lines: a prefix test that reaches into comment lines ({}) is used in `{}`: not followed'.format(commentish or keywords, unparse(par)[:60] if par is not None else '?'))
+        body = [st for st in par.body if not isinstance(st, ast.Pass)]
+        if body and all(isinstance(st, ast.Continue) for st in body):
+            rep.ok('R13.4.comment-lines', 'read_lines: lines starting with `#` are only skipped', nontrivial=False)
+            continue
+        what = 'the prefix {!r}'.format(commentish[0]) if commentish else 'a prefix test after stripping leading `#` characters'
+        rep.fail(Finding('R13.4.comment-lines', 'read_lines', par.test,
+                         'the reader recognises a directive by {}: a line whose first non-blank character is `#` is a comment whatever follows, but '
+                         '`#{}...` is acted upon (a commented-out directive is executed)'.format(what, (keywords or ['include '])[0].strip()), line=node.lineno),
+                 instance='directives are not recognised in comment lines')
 
 
 # ================================================================================================================
@@ -2114,7 +2402,8 @@ def check_reader(rep, facts):
 # ================================================================================================================
 def _sp_lex_tokens(flow, args, kw, node, env):
     line = args[0] if args else Unk('missing')
-    return LT(line, LexedToks(line), False)
+    screened = isinstance(line, LineV) and line.screened
+    return LT(line, LexedToks(line), None if screened else False)
 
 
 def _sp_parse_item(flow, args, kw, node, env):
@@ -2217,7 +2506,7 @@ def check_handover(rep, facts, reader_skips_blank):
 # ================================================================================================================
 # R13.1: numeric register spellings in any base
 # ================================================================================================================
-def check_register_numbers(rep, facts):
+def check_register_numbers(rep, facts, second_opinion=None):
     fn = facts.funcs.get('lookup_register')
     if fn is None:
         raise AnalysisError('anchor vanished: lookup_register')
@@ -2235,6 +2524,15 @@ def check_register_numbers(rep, facts):
         if key.state == 'int':
             raise AnalysisError('lookup_register: the key of `{}` is always converted with int(): register names are outside this path'.format(unparse(node)[:60]))
         ok = key.state == 'norm' and key.base == 0
+        if key.state == 'raw' and second_opinion is not None:
+            # no conversion on the way through lookup_register itself: it may happen before the call (in the callers); that is what
+            # the interprocedural encoder summaries decide
+            verdict = second_opinion()
+            if verdict is None:
+                raise AnalysisError('lookup_register: the operand reaches `{}` unconverted, and where else it might be converted is not decided'.format(unparse(node)[:60]))
+            if verdict:
+                rep.ok('R13.1.registers', 'numeric register spellings in any base go through int(., 0) before lookup_register is called (encoder summaries)', nontrivial=False)
+                continue
         if key.state == 'raw':
             msg = 'hex / binary register numbers are no longer normalised before the table lookup'
         else:
@@ -2343,6 +2641,26 @@ def register_parameter(facts, cls, param, mnemonics):
     return verdicts.pop()
 
 
+def same_but_converted(call, ref, name):
+    """`call` is the construction `ref` with the plain operand `name` replaced by int(name, 0) / int(name, base=0)."""
+    if call.func.id != ref.func.id or len(call.args) != len(ref.args) or call.keywords or ref.keywords:
+        return False
+    converted = 0
+    for a, b in zip(call.args, ref.args):
+        if isinstance(b, ast.Name) and b.id == name:
+            ok = (isinstance(a, ast.Call) and isinstance(a.func, ast.Name) and a.func.id == 'int' and a.args
+                  and isinstance(a.args[0], ast.Name) and a.args[0].id == name)
+            if ok:
+                base = a.args[1] if len(a.args) > 1 else next((k.value for k in a.keywords if k.arg == 'base'), None)
+                ok = isinstance(base, ast.Constant) and base.value == 0
+            if not ok:
+                return False
+            converted += 1
+        elif ast.dump(a) != ast.dump(b):
+            return False
+    return converted > 0
+
+
 def enclosing_mnemonics(node, facts):
     """Mnemonics of the parser arm the node sits in: the nearest enclosing `if <head> in <mnemonic table>` whose body holds it."""
     tables = facts.instruction_tables()
@@ -2367,15 +2685,15 @@ def statements_after(node):
     return []
 
 
-def check_operand_spelling(rep, facts):
+def check_operand_spelling(rep, facts, helpers=()):
     """A number is a documented spelling of a register (`12` is x12).  Where the parser tests an operand with the numeric-literal
     helper and the operand is, on the other side of the test, a register operand, the numeric side must not turn the line into
     something else: `add a0, a1, 12` and `add a0, a1, x12` are the same instruction."""
     if 'parse_item' not in facts.funcs:
         raise AnalysisError('anchor vanished: parse_item')
-    preds = int_predicates(facts)
+    preds = int_predicates(facts) | set(helpers)
     if not preds:
-        return
+        return            # (R13.7 reports the missing helper: no verdict, not a pass)
     scope = [f for f in reachable_functions(facts, 'parse_item') if f not in preds and f not in ('lex_tokens', 'read_lines')]
     for fname in sorted(scope):
         fn = facts.funcs[fname]
@@ -2423,15 +2741,23 @@ def check_operand_spelling(rep, facts):
                 raise AnalysisError('{}: the register operand `{}` is rewritten where it is spelled as a number: not decided'.format(fname, name))
             builds = item_constructions(numeric_side, facts)
             exits = [n for st in numeric_side for n in ast.walk(st) if isinstance(n, (ast.Return, ast.Raise))]
-            same = [c for c in builds if params_receiving(c, name, facts) and c.func.id == c0.func.id and p0 in params_receiving(c, name, facts)]
             if body_is_numeric and not exits and not builds:
                 rep.ok('R13.1.operand-spelling', '{}: numeric spellings of register operand `{}` continue to the same construction'.format(fname, name))
                 continue
-            if same and len(same) == len(builds):
-                raise AnalysisError('{}: numeric spellings of the register operand `{}` are built by a separate {} construction: equality with the other '
-                                    'side is not decided'.format(fname, name, c0.func.id))
-            if not exits:
-                raise AnalysisError('{}: what happens to numeric spellings of the register operand `{}` is not understood'.format(fname, name))
+            # the same construction with the operand converted by int(., 0): what lookup_register does first anyway (R13.1.registers)
+            if builds and all(same_but_converted(c, c0, name) for c in builds):
+                rep.ok('R13.1.operand-spelling', '{}: numeric spellings of register operand `{}` are converted with int(., 0) and built alike'.format(fname, name))
+                continue
+            raises = [n for n in exits if isinstance(n, ast.Raise)]
+            as_immediate = [n for st in numeric_side for n in ast.walk(st)
+                            if isinstance(n, ast.Call) and dotted(n.func) == 'parse_immediate'
+                            and any(isinstance(x, ast.Name) and x.id == name for a in n.args for x in ast.walk(a))]
+            for c in builds:
+                if params_receiving(c, name, facts) is None:
+                    raise AnalysisError('{}: {} is built from star-arguments where `{}` is spelled as a number'.format(fname, c.func.id, name))
+            if not (raises and not builds) and not as_immediate:
+                raise AnalysisError('{}: what happens to numeric spellings of the register operand `{}` ({}) is not understood: neither refused, nor '
+                                    'parsed as an immediate, nor the same construction'.format(fname, name, unparse(node.test)[:60]))
             what = ('builds {}'.format(', '.join(sorted({c.func.id for c in builds}))) if builds else 'refuses the line')
             rep.fail(Finding('R13.1.operand-spelling', fname, node,
                              '`{}` is a register operand ({}.{} is looked up in the register table), and a bare number is a documented spelling of a register; '
